@@ -4,6 +4,7 @@ package c07
 import (
 	"context"
 	"fmt"
+	"runtime"
 	"strings"
 	"sync"
 	"sync/atomic"
@@ -54,13 +55,14 @@ func init() {
 		RaceIsViolation: true,
 		Cases: func(tier string) int {
 			if tier == "thorough" {
-				return gridSize + 72000
+				return gridSize + 72000 + stormCases(tier)
 			}
-			return 1360 + 640
+			return 1360 + 640 + stormCases(tier)
 		},
 		Rule: "pairwise part: operation A in {Publish, Subscribe, context cancel, Close} is parked at one of 17 hook points (publish: after closed check / topic lock / persisted / waiting for ack; send loop: lock taken / before channel send / waiting for settlement; " +
 			"subscribe: registered / locks taken / before replay / before registration; teardown: woken / before sending lock / before removal; close: signalled / subscriptions gone; decorator pump holding a message) while action B in {Close, cancel, Close twice concurrently, Publish, Subscribe} runs to completion or blocks behind A " +
 			"(decided by the quiescence detector), then A is released; grid x {persistent} x {blocking} x buffer {0,2} x front {bare, 1, 2 MessageTransform subscriber decorators} x reader {drains, holds one message unsettled, never reads, nacks everything} = 8160 cells (thorough: all, quick: a seed-rotated sixth). " +
+			"storm part (96 / 1920 cases x 30 rounds): on a fresh GoChannel with 0..3 subscriptions (bare or behind 1..2 subscriber decorators) 2..8 Close callers - on the Pub/Sub or on a decorator - start together behind a spin gate, optionally with a racing Subscribe or Publish: no panic, every call returns, every output channel ends up closed. " +
 			"random part: generated concurrent programs (publishers, subscriptions, cancels, consumers that stop reading or never ack, decorators) with Close arriving mid-run from 1..3 goroutines. " +
 			"Oracle: no API call panics, no product goroutine crashes the process, no data race with a watermill frame, every Close/cancel/Publish/Subscribe call returns (quiescent-without-return = violation), after Close every output channel handed out is closed, Publish and Subscribe return errors, " +
 			"no goroutine created by gochannel/decorator code remains, and after cancelling one subscription a fresh publish still reaches another. Non-trivial: the park point was reached (pairwise) / Close overlapped a running program (random). Distinct = (cell or program shape, who blocked behind whom, hook fingerprint).",
@@ -73,7 +75,12 @@ func init() {
 	})
 }
 
+func stormCases(tier string) int { return vlib.TierN(tier, 96, 1920) }
+
 func run(e *vlib.Env) vlib.Result {
+	if base := map[bool]int{true: gridSize + 72000, false: 1360 + 640}[e.Tier == "thorough"]; e.Idx >= base {
+		return storm(e)
+	}
 	if e.Tier == "thorough" {
 		if e.Idx < gridSize {
 			return pair(e, e.Idx)
@@ -459,7 +466,7 @@ func random(e *vlib.Env) vlib.Result {
 		MetaKeys:  1,
 		PayloadSz: 8,
 		CloseMid:  r.Chance(0.7),
-		Closers:   r.Range(1, 3),
+		Closers:   []int{1, 2, 3, 8, 8}[r.Intn(5)],
 		YieldP:    []float64{0, 0.3, 0.6}[r.Intn(3)],
 		YieldUs:   []int{0, 40, 150}[r.Intn(3)],
 	}
@@ -560,5 +567,150 @@ func random(e *vlib.Env) vlib.Result {
 	res.Count("close_overlapped_publish", b2i(closeOverlapped))
 	res.NonTrivial = rn.Events.Load() > 4
 	res.Sample = map[string]any{"program": shape, "close_overlapped_a_publish": closeOverlapped}
+	return res
+}
+
+// storm: Close calls that overlap from their very first instruction (check-then-act slips need that; a second Close that
+// arrives while the first one is already inside behaves correctly).
+func storm(e *vlib.Env) vlib.Result {
+	r := e.R
+	res := vlib.Result{Class: "storm"}
+	gcFrame := func(g vlib.Goroutine) bool { return g.Has("pubsub/gochannel.") }
+	before, _ := vlib.CountGoroutines(gcFrame)
+	panics := 0
+	var firstPanic string
+	var pmu sync.Mutex
+	rounds, closers := 30, 0
+	for round := 0; round < rounds && !res.Failed() && res.Verdict == ""; round++ {
+		cfgI := r.Intn(12)
+		ps := gochannel.NewGoChannel(gochannel.Config{OutputChannelBuffer: []int64{0, 1, 4}[cfgI%3], Persistent: (cfgI/3)%2 == 1, BlockPublishUntilSubscriberAck: cfgI/6 == 1}, watermill.NopLogger{})
+		topic := fmt.Sprintf("%s/storm%d", e.ID(), round)
+		var fronts []message.Subscriber
+		var chans []<-chan *message.Message
+		for i, n := 0, r.Intn(4); i < n; i++ {
+			var sub message.Subscriber = ps
+			for d, nd := 0, r.Intn(3); d < nd; d++ {
+				dec, err := message.MessageTransformSubscriberDecorator(func(*message.Message) {})(sub)
+				if err != nil {
+					res.Verdict, res.Reason = vlib.HarnessError, err.Error()
+					return res
+				}
+				sub = dec
+			}
+			ch, err := sub.Subscribe(context.Background(), topic)
+			if err != nil {
+				res.Fail("subscribe-error", "Subscribe on an open Pub/Sub failed: %v", err)
+				break
+			}
+			fronts = append(fronts, sub)
+			chans = append(chans, ch)
+			go func() {
+				for m := range ch {
+					m.Ack()
+				}
+			}()
+		}
+		if r.Bool() {
+			go func() { _ = ps.Publish(topic, message.NewMessage("m", []byte("p"))) }()
+		}
+		n := r.Range(2, 8)
+		closers += n
+		var ready atomic.Int32
+		var wg sync.WaitGroup
+		call := func(name string, f func()) {
+			wg.Add(1)
+			go func() {
+				defer wg.Done()
+				defer func() {
+					if v := recover(); v != nil {
+						pmu.Lock()
+						panics++
+						if firstPanic == "" {
+							firstPanic = fmt.Sprintf("%s: %v", name, v)
+						}
+						pmu.Unlock()
+					}
+				}()
+				ready.Add(1)
+				for spin := 0; int(ready.Load()) < n && spin < 200000; spin++ {
+					if spin%64 == 63 {
+						runtime.Gosched()
+					}
+				}
+				f()
+			}()
+		}
+		for i := 0; i < n; i++ {
+			k := r.Intn(10)
+			if i == 0 {
+				k = 0 // at least one Close of the Pub/Sub itself: the racing Subscribe reads until its channel is closed
+			}
+			switch {
+			case k < 6 || (k < 8 && len(fronts) == 0):
+				call("GoChannel.Close", func() { ps.Close() })
+			case k < 8:
+				f := fronts[r.Intn(len(fronts))]
+				call("Close of a subscription's front (decorator or Pub/Sub)", func() { f.Close() })
+			case k == 8:
+				call("Subscribe", func() {
+					if ch, err := ps.Subscribe(context.Background(), topic); err == nil {
+						for m := range ch {
+							m.Ack()
+						}
+					}
+				})
+			default:
+				call("Publish", func() { _ = ps.Publish(topic, message.NewMessage("m2", []byte("p"))) })
+			}
+		}
+		done := make(chan struct{})
+		go func() { wg.Wait(); close(done) }()
+		if oc, d := vlib.WaitClosed(done, vlib.WD); oc == vlib.Stuck {
+			res.Fail("call-stuck", "round %d: %d Close/Subscribe/Publish calls started together on a fresh GoChannel; at least one never returned (quiescent)", round, n)
+			res.Witness = vlib.Trunc(d, 60000)
+			break
+		} else if oc == vlib.Inconclusive {
+			res.Inconclusive("round %d did not finish", round)
+			break
+		}
+		// a Close call has returned on the Pub/Sub itself in every round where one was made; make sure of one, then all channels must end
+		cd := make(chan struct{})
+		go func() { ps.Close(); close(cd) }()
+		if oc, _ := vlib.WaitClosed(cd, vlib.WD); oc != vlib.Done {
+			res.Fail("call-stuck", "round %d: a further Close after the storm never returned", round)
+			break
+		}
+		for i, ch := range chans {
+			ch := ch
+			ended := make(chan struct{})
+			go func() {
+				for range ch {
+				}
+				close(ended)
+			}()
+			if oc, d := vlib.WaitClosed(ended, vlib.WD); oc == vlib.Stuck {
+				res.Fail("channel-open-after-close", "round %d: output channel %d is still open after Close returned (quiescent)", round, i)
+				res.Witness = vlib.Trunc(d, 60000)
+				break
+			}
+		}
+		res.Events += n + len(chans)
+	}
+	pmu.Lock()
+	if panics > 0 {
+		res.Fail("panic", "%d call(s) panicked, first: %s", panics, firstPanic)
+	}
+	pmu.Unlock()
+	if !res.Failed() && res.Verdict == "" {
+		vlib.Settle(vlib.WD)
+		if after, _ := vlib.CountGoroutines(gcFrame); after > before {
+			res.Count("gochannel_goroutines_left", after-before)
+		}
+	}
+	res.Count("storm_rounds", rounds)
+	res.Count("storm_calls_started_together", closers)
+	res.NonTrivial = true
+	res.Sig = vlib.Sig("storm", e.Idx)
+	res.Sample = map[string]any{"rounds": rounds, "calls": closers}
 	return res
 }
